@@ -1,1 +1,4 @@
-//! harness package hexec
+//! harness package hexec: C04 task / join-handle lifecycle replays
+pub mod ctl;
+pub mod hooks;
+pub mod instr;
